@@ -349,3 +349,17 @@ package helper
 //@ requires[C01,C15] forall k :: 0 <= k && k < len(b) ==> b[k] == (k < P ? 0 : a[k-P])
 //@ ensures[C01,C15] psum(b, j) == psum(a, max(0, j-P))
 //@ induction j
+
+// ---- Bst (pointer tree): structural contract is bounded only (DESIGN C17); callers see an opaque mutable object
+//@ func NewBst
+//@ trusted fresh empty tree (structure covered by the bounded Bst check)
+//@ func Bst.Insert
+//@ trusted
+//@ modifies b
+//@ func Bst.Remove
+//@ trusted
+//@ modifies b
+//@ func Bst.Min
+//@ trusted
+//@ func Bst.Max
+//@ trusted
